@@ -15,6 +15,7 @@ def run(facts, tier):
         ("merge peers", K.merge_peers, 1, "merge combines error parameters with the same field of the other sketch"),
         ("tautologies", lambda fa: generic_lints.tautologies(fa, ('kll/', 'req/', 'quantiles/')), 2, "no comparison / assignment / min-max with two identical operands, no if-else with identical arms"),
         ("duplicate operands", lambda fa: generic_lints.duplicate_conjuncts(fa, ('kll/', 'req/', 'quantiles/')), 2, "no logical chain tests the same operand twice (copy-paste of the wrong peer)"),
+        ("narrow shifts", lambda fa: generic_lints.narrow_variable_shift(fa, ('kll/', 'req/', 'quantiles/')), 1, "no count << level evaluated in 32 bits and only then widened to 64 bits (weights of large merged sketches wrap at 2^32)"),
     ):
         o = f(facts)
         obs += o
